@@ -1,6 +1,7 @@
 package main
 
 import (
+	"math"
 	"fmt"
 	"math/big"
 	"strconv"
@@ -132,6 +133,11 @@ func genC17(r *Rng, tier string) []*Case {
 		case 7:
 			a := JFloat(-0.5)
 			in.Alpha = &a
+		case 10, 11: // a compute that fails inside the iteration (a pre-trust entry is +Inf), after the inputs were
+			// aligned and canonicalised: the stored global trust (not summing to 1) must be left exactly as it was
+			in.PT, in.NoPre = append(in.PT, GOp{Op: "vupdate", ID: 0, TS: []uint64{7}, Es: []GEntry{{I: strconv.Itoa(r.Intn(n)), V: JFloat(math.Inf(1))}}}), false
+			in.GT = append(in.GT, GOp{Op: "vupdate", ID: 1, TS: []uint64{2}, Es: []GEntry{{I: "0", V: JFloat(3 + r.Pos())}, {I: strconv.Itoa(n - 1), V: JFloat(r.Pos())}}})
+			in.Max, in.Twice = 0, false // (with an iteration limit the run may end before a check sees the NaN: outside the property)
 		case 8, 9: // an explicit alpha = 0 is a valid value, not "unset": bounded by max_iterations
 			a := JFloat(0)
 			in.Alpha = &a
